@@ -101,6 +101,16 @@ def monitor(ctx, st):
                                 f"{desc}: {hrel}/{r['path']!r} {e['fmt']}: recorded {e['digest']} but bytes on disk give {want}")
                     return
             missing = [f for f in A.formats if f not in fmts]
+            prev_fmts = set()
+            for g in A.pre.get(hr, {"gens": []})["gens"]:
+                for pr in g[2]["files"]:
+                    if pr["path"] == r["path"]:
+                        prev_fmts |= {e["fmt"] for e in pr["entries"]}
+            if [f for f in missing if f in prev_fmts]:
+                ctx.violate({"kind": "requested-format-missing", "cause": "recorded-format", "mode": A.mode},
+                            f"{desc}: {hrel}/{r['path']!r} has {fmts}; requested {A.formats}, of which "
+                            f"{[f for f in missing if f in prev_fmts]} were recorded before and must be re-checked")
+                return
             if missing and not failed:
                 ctx.violate({"kind": "requested-format-missing", "mode": A.mode},
                             f"{desc}: {hrel}/{r['path']!r} has {fmts}, requested {A.formats}")
